@@ -178,7 +178,7 @@ def one_spec(spec: Dict[str, Any], rng: random.Random, n_sched: int) -> Dict[str
             same = canon_result(g["result"]) == base
         rec["gated"].append({"plan": {k: v for k, v in plan2.items() if k != "_ren"}, "rounds": g["rounds"],
                              "status": g["status"], "problem": g["problem"], "judge": jr, "same_as_sync": same,
-                             "exc": (str(g.get("exc"))[-200:] if g["status"] == "raised" else None)})
+                             "exc": (" ".join(str(g.get("exc")).split())[:220] if g["status"] == "raised" else None)})
     return rec
 
 
@@ -279,6 +279,8 @@ def run(rep: vlib.Reporter, tier: str, seed: int) -> None:
                     "from earlier groups or earlier features of the same group => intra-group levels), frameworks from "
                     "{PyArrow, Pandas, PythonDict} possibly changing between groups; 20% two roots with an inner link; kept "
                     "when the SYNC run succeeds. Each spec: SYNC run + up to n gated THREADING runs with PRNG release order. "
+                    "Plus families of 2-3 unordered in-place siblings (pandas mutate / Series, python-dict rows) under one consumer, "
+                    "run under EVERY finish order of the siblings. "
                     "non-trivial = the plan has an intra-group level split or a gated run had >= 2 concurrently enabled steps")
     rep.add("traces_validated_against_impl", len(recs) + len(gated_terms))
 
